@@ -60,7 +60,7 @@ Theorem C04_stmt_implicit : forall mk s e stmts t d d',
   mtch_stmts mk s e stmts t d = Some d' ->
   exists st fs idx ts rs,
     stmt_container t = Some (st, fs, idx) /\ targets (nth_val idx fs) = Some ts /\
-    Decomp mk T_S_ast_Stmt (dots_stmt s :: stmts ++ [dots_stmt e]) ts (set_stmt st fs d) rs d'.
+    Decomp mk T_S_ast_Stmt (with_implicit s e stmts) ts (set_stmt st fs d) rs d'.
 Proof.
   intros mk s e stmts t d d' Hne H. unfold mtch_stmts in H.
   destruct (stmt_container t) as [[[st fs] idx]|] eqn:C; [|discriminate].
